@@ -334,6 +334,7 @@ def s4(ck: Check) -> None:
             # J2: evidence guard (checked in detail by C15-E4): which sub-diagram node does the evidence talk about?
             guards = []
             for test, pol, b in fm.facts(e.cfgn):
+                test, pol = c15.strip_not(test, pol)
                 if pol and b.loop is None:
                     tnode = fm.cfg.nodes[next(iter(fm.cfg.g.predecessors(b.id)))]
                     if not c15._is_config_test(fm, test, tnode):
@@ -501,6 +502,20 @@ def _list_of_closed(prog, fm: FuncModel, name: str, at, depth) -> tuple[bool, st
             r = _list_of_closed(prog, fm, v.id, d, depth + 1)
             if not r[0]:
                 return r
+            continue
+        if isinstance(v, ast.IfExp):
+            # either branch: a list of closed sets, or a selection from one
+            okb = True
+            for br in (v.body, v.orelse):
+                if isinstance(br, ast.Name):
+                    r = _list_of_closed(prog, fm, br.id, d, depth + 1)
+                elif isinstance(br, ast.ListComp) and len(br.generators) == 1 and isinstance(br.generators[0].iter, ast.Name) \
+                        and ast.dump(br.elt) == ast.dump(br.generators[0].target).replace("Store()", "Load()"):
+                    r = _list_of_closed(prog, fm, br.generators[0].iter.id, d, depth + 1)
+                else:
+                    r = (False, f"`{name}` = `{text(br)[:40]}`")
+                if not r[0]:
+                    return r
             continue
         if isinstance(v, ast.Call) and callee_name(v) == "sorted" and v.args and isinstance(v.args[0], ast.Name):
             r = _list_of_closed(prog, fm, v.args[0].id, d, depth + 1)
